@@ -220,6 +220,13 @@ func main() {
 					edits = append(edits, edit{off: off, ins: "vsyncP__.Point(\"" + kind + "\"); "})
 					needShim = true
 					nPoints++
+					if kind == "close" || kind == "send" {
+						// and one AFTER the statement: the threads it wakes may run before
+						// the publisher's following (unsynchronised) statements
+						end := fset.Position(st.End()).Offset
+						edits = append(edits, edit{off: end, ins: "; vsyncP__.Point(\"after-" + kind + "\")"})
+						nPoints++
+					}
 				}
 				visitList = func(list []ast.Stmt) {
 					for _, st := range list {
